@@ -20,7 +20,7 @@ Inductive val :=
 | VBool (b : bool)
 | VInt (w : width) (z : Z)
 | VUint (w : width) (n : Z)
-| VFloat (is32 : bool) (f : fl) (repr : str)   (* repr: strconv.FormatFloat(x,'f',-1,bits), from the harness *)
+| VFloat (is32 : bool) (f : fl) (repr repr64 : str)   (* strconv.FormatFloat(x,'f',-1,bits) and (...,64), from the harness *)
 | VStr (s : str)
 | VNilPtr (tstr : str)                         (* typed nil pointer; tstr = Type.String() *)
 | VPtr (v : val)
@@ -35,7 +35,7 @@ Inductive val :=
 Definition kind (v : val) : kd :=
   match v with
   | VInvalid => KInvalid | VBool _ => KBool | VInt _ _ => KInt | VUint _ _ => KUint
-  | VFloat _ _ _ => KFloat | VStr _ => KString | VNilPtr _ => KPtr | VPtr _ => KPtr
+  | VFloat _ _ _ _ => KFloat | VStr _ => KString | VNilPtr _ => KPtr | VPtr _ => KPtr
   | VSlice _ ek _ _ => KSlice ek | VArray ek _ _ => KArray ek | VMap _ _ _ _ => KMap
   | VStruct _ _ => KStruct | VIface _ => KIface | VTime => KStruct | VOther _ => KOther
   end.
@@ -53,7 +53,7 @@ Fixpoint type_string (v : val) : str :=
   | VBool _ => s2b "bool"
   | VInt w _ => s2b "int" ++ width_str w
   | VUint w _ => s2b "uint" ++ width_str w
-  | VFloat is32 _ _ => if is32 then s2b "float32" else s2b "float64"
+  | VFloat is32 _ _ _ => if is32 then s2b "float32" else s2b "float64"
   | VStr _ => s2b "string"
   | VNilPtr t => t
   | VPtr v' => 42%N :: type_string v'
@@ -103,7 +103,7 @@ Fixpoint is_zero_fuel (fuel : nat) (v : val) : res bool :=
     | VBool b => Ok (negb b)
     | VInt _ z => Ok (z =? 0)
     | VUint _ n => Ok (n =? 0)
-    | VFloat _ fv _ => Ok (fl_is_zero fv)
+    | VFloat _ fv _ _ => Ok (fl_is_zero fv)
     | VStr s => Ok (match s with [] => true | _ => false end)
     | VNilPtr _ => Ok true
     | VPtr _ => Ok false
@@ -148,11 +148,11 @@ Definition vlen (v : val) : res Z :=
    not predict: it is the marker below, and echoes are compared only after [echo_filter] *)
 Definition opaque_echo : str := s2b "[?".
 Definition to_str (v : val) : str :=
-  match v with
+  match (match v with VIface (Some x) => x | _ => v end) with
   | VStr s => s
   | VInt _ z => itoa z
   | VUint _ n => itoa n
-  | VFloat _ _ repr => repr
+  | VFloat _ _ repr _ => repr
   | VBool b => if b then s2b "true" else s2b "false"
   | _ => opaque_echo
   end.
